@@ -318,6 +318,23 @@ func AddTimer(due int64, name string, fire func()) *Timer {
 	return tm
 }
 
+// Pending reports whether the timer has neither fired nor been cancelled.
+//
+//go:norace
+func (tm *Timer) Pending() bool { return tm != nil && !tm.dead }
+
+// SpawnAtFire starts f as a new thread from a timer's Fire function (which runs in the controller, at
+// quiescence): the thread is runnable, the controller picks it next.
+//
+//go:norace
+func SpawnAtFire(name string, f func()) {
+	if e == nil || e.dead {
+		go f()
+		return
+	}
+	e.newThread(name, f)
+}
+
 // Cancel a timer.
 //
 //go:norace
